@@ -199,7 +199,7 @@ def selected_heading(msg: str) -> None | float:
         return None
     else:
         hdg_sign = int(mb[30])
-        hdg = (hdg_sign + 1) * common.bin2int(mb[31:39]) * (180 / 256)
+        hdg = hdg_sign * 180 + common.bin2int(mb[31:39]) * (180 / 256)
 
     return hdg
 
